@@ -26,7 +26,7 @@ import (
 //
 // Direct predicate ("names … denote one entry"): every key the script prints, and the key of the name the script ends
 // with, is the key of a FRESH typed name of the same namespace, name and authority (`derived-key` when the strings hold a
-// letter whose lower case has another UTF-8 length — the known finding —, else `key-wrong`); no method faults; the
+// letter whose lower case has another UTF-8 length — the class of the fixed finding C12-typedname-derived-key —, else `key-wrong`); no method faults; the
 // name TypedNameFromMapKey re-makes has the key it was made from (`fromkey-key`); the name, its lower-cased and (for
 // letters with lower(upper(r)) = lower(r)) its upper-cased spelling have one key (`case-split`).
 func execTn(args []sx.Sexp) (res core.Result) {
